@@ -106,6 +106,7 @@ Fixpoint sem_expr (ln : nat) (e : env) (x : expr) {struct x} : list rd :=
   | ELoad n _ => [(ln, n, resolve n e)]
   | EOp es => (fix go (l : list expr) : list rd :=
                  match l with [] => [] | y :: r => sem_expr ln e y ++ go r end) es
+  | EAttr y _ => sem_expr ln e y
   | ELambda ps defaults body =>
       (fix go (l : list expr) : list rd :=
          match l with [] => [] | y :: r => sem_expr ln e y ++ go r end) defaults
